@@ -174,6 +174,8 @@ def run(ctx: Any) -> None:
         },
     )
 
+    ctx.prove(["refuted/R_C18.vo"], {"R_C18": ["C18_identity_ignores_cap_refuted", "C18_old_gzip_loop_spins_refuted"]})
+
     import zstandard
     import zlib
 
@@ -472,12 +474,15 @@ def run(ctx: Any) -> None:
 
 
 # ---------------------------------------------------------------------------
-def replay(ctx: Any, path: str) -> int:
-    """Re-run one recorded case against the tree under test."""
+def replay(ctx: Any, data: Any) -> None:
+    """Re-run one recorded case against the tree under test (called by vlib.main with the loaded replay file)."""
     from harness import c18_codec as H
 
-    rp = json.loads(Path(path).read_text())
-    r = rp["replay"]
+    rp = data if isinstance(data, dict) else json.loads(Path(data).read_text())
+    r = rp.get("replay", rp)
+    if "payload" not in r:
+        ctx.log("replay file carries no single input (broken obligation without a failing input): nothing to re-run")
+        return
     spec = H.spec_from_json(r["payload"])
     d = H.expand(spec)
     if r.get("frame_hex"):
@@ -493,5 +498,8 @@ def replay(ctx: Any, path: str) -> int:
     cap = r["cap"]
     want = "ok" if cap is None or len(d) <= cap or r["codec"] == "identity" else "limit"
     good = cls == want and (cls != "ok" or out == d)
-    print(f"replay {rp.get('key')}: codec={r['codec']} kind={r['kind']} len={len(d)} cap={cap}: observed {cls} {msg[:100]!r}; expected {want}: {'holds' if good else 'VIOLATED'}")
-    return 0 if good else 1
+    ctx.case([r["codec"], r["kind"], len(d), cap])
+    ctx.log(f"replay {rp.get('key')}: codec={r['codec']} kind={r['kind']} len={len(d)} cap={cap}: observed {cls} {msg[:100]!r}; "
+            f"the property demands {want}: {'holds' if good else 'VIOLATED'}")
+    if not good:
+        ctx.violation(str(rp.get("key") or "replayed-case"), f"replayed case still fails: observed {cls} {msg[:100]}", {**r, "observed": [cls, msg[:160], None if out is None else len(out)]})
